@@ -1,0 +1,43 @@
+//go:build verif
+
+// Contracts for the verification machinery in /verif (govc). Comment-only file.
+
+package payment
+
+// paid: what the settlement handler has disbursed so far, per wallet (ghost).
+// feeOf: the (pure) fee schedule applied by PaymentService.WithdrawFee.
+//@ ghost var paid map[string]int
+//@ ghost var feeOf fun(int)int
+
+//@ guarded_by PaymentService.withdrawing mu
+
+//@ funcfield PaymentService.WithdrawFee(amount) (result)
+//@ requires amount != nil
+//@ ensures [fee] result != nil && bigval(result) == feeOf(old(bigval(amount)))
+//@ modifies contents(amount)
+
+//@ funcfield PaymentService.Settle(account, paymentAmount, newBalance) (txID, err)
+//@ requires paymentAmount != nil && newBalance != nil
+//@ ensures [paid]    err == nil ==> paid == upd(old(paid), string(account), old(paid)[string(account)] + bigval(paymentAmount)) && effects == old(effects) + 1
+//@ ensures [failed]  err != nil ==> paid == old(paid) && effects == old(effects)
+//@ ensures [errkind] !typeis(err, pool.VerifyFailedError)
+//@ modifies paid, effects
+
+//@ func (*PaymentService).verify
+//@ property C04 C05 C06
+//@ ensures [accepted] err == nil ==> authorised(method, wallet, nonce) && authArgs == args
+//@                                   && old(p.NonceStore.nonce[wallet]) < nonce && p.NonceStore.nonce == upd(old(p.NonceStore.nonce), wallet, nonce)
+//@ ensures [refused]  err != nil ==> typeis(err, pool.VerifyFailedError) && p.NonceStore.nonce == old(p.NonceStore.nonce) && effects == old(effects)
+//@                                   && nonceOK == old(nonceOK) && nonceID == old(nonceID) && nonceVal == old(nonceVal)
+//@ ensures [signature-first] {C06} !authOK ==> p.NonceStore.nonce == old(p.NonceStore.nonce) && effects == old(effects)
+//@ ensures [one-effect] err == nil ==> effects == old(effects) + 1
+//@ modifies authOK, authMethod, authID, authNonce, authArgs, nonceOK, nonceID, nonceVal, p.NonceStore.nonce, effects
+
+//@ func (*PaymentService).AddNode
+//@ property C04 C06 C01
+//@ requires !authOK && !nonceOK
+//@ ensures [authorised] effects != old(effects) ==> authorised("pool_addNode", wallet, nonce) && len(authArgs) == 1 && typeis(authArgs[0], string) && authArgs[0].(string) == nodeID
+//@ ensures [refused-error]    !(authOK && nonceOK) ==> typeis(err, pool.VerifyFailedError)
+//@ ensures [refused-no-trace] !(authOK && nonceOK) ==> effects == old(effects) && p.NonceStore.nonce == old(p.NonceStore.nonce)
+//@                              && p.AccountStore.credit == old(p.AccountStore.credit) && p.AccountStore.cell == old(p.AccountStore.cell)
+//@ ensures [zero-sum] {C01}   p.AccountStore.total == old(p.AccountStore.total)
